@@ -82,6 +82,16 @@ def cases(ctx):
                     ent("leaf", "mid", None, "ECDSAwithSHA256")]
             out.append(mk(len(out) + 1, ents, {"ca": "ca.yaml", "mid": "m/mid.yaml", "leaf": "m/l/leaf.json"},
                           {"ca": "CN=CA own key id %s, O=Chain" % mode, "mid": "CN=Mid, O=Chain", "leaf": "CN=Leaf, O=Chain"}, "issuer-ski-" + mode))
+    # distinguished names that coincide: a certificate with the subject of its issuer but another key (what a key roll-over looks like), the same
+    # name two tiers apart, two siblings with one name - who signed and whose key the identifiers hash is decided by the issuer relation, never by names
+    for ik, sk in [("P-256", "P-256"), ("P-256", "P-384"), ("RSA-1024", "RSA-1024"), ("brainpoolP256r1", "P-256"), ("P-384", None)]:
+        isig = "RSAwithSHA256" if is_rsa(ik) else "ECDSAwithSHA256"
+        ssig = "RSAwithSHA256" if is_rsa(sk) else "ECDSAwithSHA256"
+        ents = [ent("ca", None, ik, isig), ent("canew", "ca", sk, isig), ent("sub", "canew", "P-256", ssig), ent("eea", "sub", None, None), ent("eeb", "sub", None, None),
+                ent("eenew", "canew", None, ssig)]
+        out.append(mk(len(out) + 1, ents, {"ca": "ca.yaml", "canew": "canew.yaml", "sub": "s/sub.yaml", "eea": "s/eea.yaml", "eeb": "s/eeb.yaml", "eenew": "eenew.yaml"},
+                      {"ca": "CN=Same Name CA, O=Chain, C=DE", "canew": "CN=Same Name CA, O=Chain, C=DE", "sub": "CN=Sub, O=Chain, C=DE", "eea": "CN=Twin, O=Chain, C=DE",
+                       "eeb": "CN=Twin, O=Chain, C=DE", "eenew": "CN=Same Name CA, O=Chain, C=DE"}, "same-names"))
     # roots with every key x signature (self-signed: must fit the own key)
     for k in keys:
         for s in (sigs if not ctx.quick else [None, "ECDSAwithSHA384", "RSAwithSHA1"]):
@@ -104,6 +114,8 @@ def cases(ctx):
             ents.append(ent(alias, parent, k, s, ski=r.random() < .8, aki=r.random() < .8, ski_other=other))
             paths[alias] = "/".join(["d%d" % (j % 3)] * (j % 3) + ["%s.%s" % (alias, ["yaml", "yml", "json"][j % 3])])
             dns[alias] = "CN=Entity %d gen %d, O=Tier %d, C=DE" % (j, i, j)
+            if parent is not None and r.random() < .12:
+                dns[alias] = dns[r.choice([parent, "e0", "e%d" % r.randrange(0, j)])]     # a name that is in use already (its issuer's, the root's, anybody's)
         out.append(mk(len(out) + 1, ents, paths, dns, "forest", profile=(i % 2 == 1)))
     # (c) imported issuers: standard-library certificate + PKCS#8 key, default and other string types of the subject
     for ik, st in [("P-256", ""), ("RSA-2048", ""), ("P-384", "utf8"), ("P-256", "ia5"), ("RSA-1024", "t61"), ("P-521", "printable")]:
@@ -142,6 +154,6 @@ def run(ctx, replay=None):
                             "verifier and judged by ChainJudge.tla; distinct configuration sets",
                             {"forests_expected_to_succeed_and_did": fits, "forests_that_failed_or_were_expected_to_fail": len(obs) - fits,
                              "explanation": "two-level trees over issuer key x subject key x signature algorithm (fits and misfits), roots over key x signature, "
-                                            "seeded forests of 3-6 entities with distinct DNs, nested paths, with/without profile; imported issuers with four subject string types"})
+                                            "seeded forests of 3-6 entities with distinct DNs (some names reused on purpose), nested paths, with/without profile; chains with coinciding names (subject = issuer's subject with another key, twins); imported issuers with four subject string types"})
     return ctx.finish("exploration", cov, ["signature arithmetic itself is trusted to the standard library / package ecv; the specification decides which verification must succeed",
                                            "RSA-4096/8192 signing keys only in thorough"])
